@@ -10,10 +10,14 @@ REJECT = (ValueError, TypeError, NotImplementedError)
 TAG = "c08"
 
 
+ORIGIN = [0]
+
+
 def build(cfg):
     """(prototype forecaster, param grid, function candidate index -> params)"""
+    import functools
     from sktime.forecasting.compose import TransformedTargetForecaster, MultiplexForecaster
-    TF = stubs.make_table_forecaster()
+    TF = functools.partial(stubs.make_table_forecaster(), origin=ORIGIN[0])
     tabs = [tuple(t) for t in cfg["tables"]]
     n = cfg["n"]
     if cfg["nest"] == "plain":
@@ -58,7 +62,8 @@ def observe(cfg, variant=0):
                                                     ExpandingWindowSplitter)
     from sktime.forecasting.model_evaluation import evaluate
     n, F = cfg["n"], len(cfg["tables"][0])
-    y = pd.Series([1000.0 + t for t in range(n)])
+    og = ORIGIN[0] = [0, 7, -3][variant % 3]       # integer labels need not start at 0
+    y = pd.Series([1000.0 + t for t in range(n)], index=pd.RangeIndex(og, og + n))
     cv = ExpandingWindowSplitter(fh=[1], initial_window=n - F, step_length=1)
     proto, grid, params_of = build(cfg)
     sc = scorer(cfg["gib"])
@@ -109,7 +114,7 @@ def observe(cfg, variant=0):
             indep.append(int(round(F * float(ev["test_" + sc.name].mean()))))
         o["indep"] = indep
         # delegation
-        ynew = pd.Series([1000.0 + t for t in range(n, n + 2)], index=pd.RangeIndex(n, n + 2))
+        ynew = pd.Series([1000.0 + t for t in range(n, n + 2)], index=pd.RangeIndex(og + n, og + n + 2))
         if cfg["refit"]:
             whole = [e for e in stubs.LOG[TAG] if e["ev"] == "fit" and e["last"] == n - 1
                      and e["table"] == tabs[o["best_params"] - 1]]
@@ -118,15 +123,15 @@ def observe(cfg, variant=0):
             direct.fit(y)
             same = bool(np.allclose(tuner.predict([1, 2]).values, direct.predict([1, 2]).values, rtol=0, atol=1e-9)) and \
                 list(tuner.predict([1, 2]).index) == list(direct.predict([1, 2]).index)
-            o["cutoff"] = int(tuner.cutoff)
-            same = same and int(direct.cutoff) == o["cutoff"]
+            o["cutoff"] = int(tuner.cutoff) - og
+            same = same and int(direct.cutoff) - og == o["cutoff"]
             for upd in (False, True):
                 import copy
                 t2, d2 = copy.deepcopy(tuner), copy.deepcopy(direct)
                 t2.update(ynew, update_params=upd)
                 d2.update(ynew, update_params=upd)
                 same = same and bool(np.allclose(t2.predict([1, 2]).values, d2.predict([1, 2]).values, rtol=0, atol=1e-9)) \
-                    and int(t2.cutoff) == int(d2.cutoff) == n + 1
+                    and int(t2.cutoff) == int(d2.cutoff) == og + n + 1
             o["delegates"] = same
             o["notfitted"] = [False, False, False]
         else:
@@ -174,7 +179,7 @@ def run(ctx):
         cfg = v["cfg"]
         obs = observe(cfg, i)
         ctx.evaluations += 1
-        sc = {"cfg": cfg, "variant": i % 4}
+        sc = {"cfg": cfg, "variant": i % 12}
         if "crash" in obs:
             ctx.violation(sc, "crash: " + obs["crash"])
             continue
@@ -191,7 +196,7 @@ def run(ctx):
     ctx.traces += len(recs) - len(rejects)
     for rec in recs:
         if rec["tid"] in rejects:
-            ctx.violation({"cfg": rec["cfg"], "variant": rec["tid"] % 4},
+            ctx.violation({"cfg": rec["cfg"], "variant": rec["tid"] % 12},
                           "code->spec: TLC rejects tuning run, clause %s; observed %s"
                           % (rejects[rec["tid"]], canon(rec["obs"])[:400]))
     return ctx.finish(
